@@ -1,106 +1,257 @@
-"""Gen/HashTables.lean: the tables of pycoin/contrib/ripemd160.py (ML MR RL RR KL KR, initial state),
-the integer literals of pycoin/bloomfilter.py:murmur3 in source order (named by role), and the Bloom filter
-constants (hash-seed multiplier, size limit, MASK_ARRAY).  Tables are read by importing the module; literals that
-live inside function bodies are read from the AST."""
+"""Gen/HashTables.lean: the tables of pycoin/contrib/ripemd160.py (ML MR RL RR KL KR, initial state), the arithmetic
+constants of pycoin/bloomfilter.py:murmur3 and the Bloom filter constants (hash-seed multiplier, size limit, MASK_ARRAY).
+
+Nothing is emitted unless it is certain.  Candidates are located by shape, wherever they are assigned (the 80-element
+integer lists, the 5-element lists of 32-bit words, the 5-tuple of 32-bit words that is neither KL nor KR; the integer
+literals of bloomfilter.py), preferring the conventional names when they exist, and every extraction is then *validated
+by behaviour*: the constants, put into a reference rendition of the algorithm written here, must reproduce what the
+module itself computes on a probe set, and exactly one assignment of candidates to roles may do so.  Anything else
+raises TranslatorUnsure: translate/gen.py then keeps the committed Gen file and the run falls back to the correspondence
+tie (a changed constant still changes the Gen file and breaks the theorem that mentions it; a changed algorithm makes
+the probe fail, the committed tables stay, and the correspondence check and its oracles find the input)."""
 import ast
 import inspect
+import itertools
+import struct
+
+M32 = 0xFFFFFFFF
 
 
-def _ints(node):
-    """integer literals below `node`, in source order"""
-    lits = []
-    for c in ast.walk(node):
-        if isinstance(c, ast.Constant) and isinstance(c.value, int) and not isinstance(c.value, bool):
-            lits.append((c.lineno, c.col_offset, c.value))
-    lits.sort()
-    return [v for _, _, v in lits]
+class TranslatorUnsure(Exception):
+    pass
 
 
-def _func(tree, name):
+def _is_int(x):
+    return isinstance(x, int) and not isinstance(x, bool)
+
+
+def _int_seqs(tree):
+    """every list/tuple display made only of integer literals, in source order: (lineno, col, values)"""
+    res = []
     for n in ast.walk(tree):
-        if isinstance(n, ast.FunctionDef) and n.name == name:
-            return n
-    return None
+        if isinstance(n, (ast.List, ast.Tuple)) and n.elts and all(isinstance(e, ast.Constant) and _is_int(e.value) for e in n.elts):
+            res.append((n.lineno, n.col_offset, [e.value for e in n.elts]))
+    res.sort()
+    return [v for _, _, v in res]
 
 
-def _int_list(xs):
-    """a Python list rendered as `List Int`; anything that is not an int list becomes []"""
-    try:
-        xs = list(xs)
-        if not all(isinstance(x, int) and not isinstance(x, bool) for x in xs):
-            return "[]"
-        return "[" + ", ".join(str(x) if x >= 0 else "(%d)" % x for x in xs) + "]"
-    except TypeError:
-        return "[]"
+def _int_literals(tree):
+    return [c.value for c in ast.walk(tree) if isinstance(c, ast.Constant) and _is_int(c.value)]
 
 
-def _int(x):
-    return str(x) if x >= 0 else "(%d)" % x
+def _lean_list(xs):
+    return "[" + ", ".join(str(x) for x in xs) + "]"
 
 
-# role of every integer literal of murmur3's body, in source order; None = control literal (range bounds, offsets
-# i+1 / roundedEnd+2, tail-length tests) that the model renders structurally
-MURMUR_ROLES = [
-    "c1", "c2", "roundMask", None, None,
-    "b0Mask", None, "b1Mask", "b1Shift", None, "b2Mask", "b2Shift", None, "b3Shift",
-    "kRotL", "kRotMask", "kRotR", "hRotL", "hRotMask", "hRotR", "hMul", "hAdd",
-    None, "valMask", None,
-    None, "t2Mask", "t2Shift", None, None, None, "t1Mask", "t1Shift", None, None, None, "t0Mask",
-    "tRotL", "tRotMask", "tRotR",
-    "f1Mask", "f1Shift", "f1Mul", "f2Mask", "f2Shift", "f2Mul", "f3Mask", "f3Shift", "outMask",
-]
+# ------------------------------------------------------------------ RIPEMD-160
+
+def _ref_ripemd160(data, ML, MR, RL, RR, KL, KR, init):
+    """the algorithm of the standard with the given tables (32-bit arithmetic throughout)"""
+    def rol(x, i):
+        return ((x << i) | (x >> (32 - i))) & M32
+
+    def f(i, x, y, z):
+        if i == 0:
+            return x ^ y ^ z
+        if i == 1:
+            return (x & y) | (~x & M32 & z)
+        if i == 2:
+            return (x | (~y & M32)) ^ z
+        if i == 3:
+            return (x & z) | (y & ~z & M32)
+        return x ^ (y | (~z & M32))
+    msg = data + b"\x80" + b"\x00" * ((119 - len(data)) % 64) + struct.pack("<Q", (8 * len(data)) & (2 ** 64 - 1))
+    h = list(init)
+    for o in range(0, len(msg), 64):
+        X = struct.unpack("<16L", msg[o:o + 64])
+        l, r = list(h), list(h)
+        for j in range(80):
+            g = j >> 4
+            t = (rol((l[0] + f(g, l[1], l[2], l[3]) + X[ML[j]] + KL[g]) & M32, RL[j]) + l[4]) & M32
+            l = [l[4], t, l[1], rol(l[2], 10), l[3]]
+            t = (rol((r[0] + f(4 - g, r[1], r[2], r[3]) + X[MR[j]] + KR[g]) & M32, RR[j]) + r[4]) & M32
+            r = [r[4], t, r[1], rol(r[2], 10), r[3]]
+        h = [(h[1] + l[2] + r[3]) & M32, (h[2] + l[3] + r[4]) & M32, (h[3] + l[4] + r[0]) & M32,
+             (h[4] + l[0] + r[1]) & M32, (h[0] + l[1] + r[2]) & M32]
+    return struct.pack("<5L", *h)
+
+
+_RMD_PROBES = [b"", b"a", b"abc", bytes(range(55)), bytes(range(56)), bytes(range(64)), bytes(range(119)), bytes(range(120)) + b"\xff" * 9]
+
+
+def _ripemd_tables():
+    import pycoin.contrib.ripemd160 as R
+    tree = ast.parse(inspect.getsource(R))
+    seqs = _int_seqs(tree)
+    want = [R.ripemd160(p) for p in _RMD_PROBES]
+
+    def fits(ML, MR, RL, RR, KL, KR, init):
+        try:
+            return all(_ref_ripemd160(p, ML, MR, RL, RR, KL, KR, init) == w for p, w in zip(_RMD_PROBES, want))
+        except Exception:  # noqa: BLE001
+            return False
+
+    def ok80(t, hi):
+        return isinstance(t, list) and len(t) == 80 and all(_is_int(v) and 0 <= v <= hi for v in t)
+
+    def ok5(t):
+        return isinstance(t, (list, tuple)) and len(t) == 5 and all(_is_int(v) and 0 <= v <= M32 for v in t)
+
+    # candidates: the conventional names when they hold well-formed values, else every literal sequence of the right shape
+    named = {n: getattr(R, n, None) for n in ("ML", "MR", "RL", "RR", "KL", "KR")}
+    sel = [list(t) for t in seqs if ok80(list(t), 15)]
+    rot = [list(t) for t in seqs if ok80(list(t), 31) and not ok80(list(t), 15)]
+    five = [list(t) for t in seqs if ok5(t)]
+    if all(ok80(named[n], 15) for n in ("ML", "MR")) and all(ok80(named[n], 32) for n in ("RL", "RR")) and all(ok5(named[n]) for n in ("KL", "KR")):
+        table_choices = [tuple(list(named[n]) for n in ("ML", "MR", "RL", "RR", "KL", "KR"))]
+        inits = [t for t in five if t != list(named["KL"]) and t != list(named["KR"])]
+    else:
+        table_choices = []
+        for a, b in itertools.permutations(sel, 2):
+            for c, d in itertools.permutations(rot, 2):
+                for e, g in itertools.permutations(five, 2):
+                    table_choices.append((a, b, c, d, e, g))
+        inits = five
+        if len(table_choices) > 5000:
+            raise TranslatorUnsure("too many table candidates in contrib/ripemd160.py (%d)" % len(table_choices))
+    uniq = []
+    for init in inits:
+        for tc in table_choices:
+            if init in (tc[4], tc[5]) and len(table_choices) > 1:
+                continue
+            if fits(*tc, init) and (tc, init) not in uniq:
+                uniq.append((tc, init))
+    if len(uniq) != 1:
+        raise TranslatorUnsure("contrib/ripemd160.py: %d assignments of the literal tables reproduce ripemd160() on the probe set "
+                               "(need exactly 1; %d selection, %d rotation, %d five-word candidates)" % (len(uniq), len(sel), len(rot), len(five)))
+    return uniq[0]
+
+
+# ------------------------------------------------------------------ murmur3 / BloomFilter
+
+def _ref_murmur3(data, seed, P):
+    def rotl(x, r):
+        return ((x << r) | (x >> (32 - r))) & M32
+
+    def mix(k):
+        return (rotl((k * P["c1"]) & M32, P["r1"]) * P["c2"]) & M32
+    h = seed & M32
+    n = len(data)
+    for i in range(n // 4):
+        h ^= mix(int.from_bytes(data[4 * i:4 * i + 4], "little"))
+        h = (rotl(h, P["r2"]) * P["m"] + P["n"]) & M32
+    if n % 4:
+        h ^= mix(int.from_bytes(data[4 * (n // 4):], "little"))
+    h ^= n & M32
+    h ^= h >> P["s1"]
+    h = (h * P["f1"]) & M32
+    h ^= h >> P["s2"]
+    h = (h * P["f2"]) & M32
+    h ^= h >> P["s3"]
+    return h
+
+
+def _murmur_constants(B, lits):
+    """find the eleven arithmetic constants among the module's integer literals by probing, stage by stage:
+    empty input isolates fmix (f1 f2 s1 s2 s3), a one-byte input adds the block scrambling (c1 c2 r1), a four-byte
+    input adds the body step (r2 m n).  Every stage must have exactly one solution."""
+    big = sorted({v for v in lits if 2 ** 16 <= v <= M32 and v not in (M32, 0xFFFFFFFC)})
+    small = sorted({v for v in lits if 1 <= v <= 31})
+    if len(big) > 12 or len(small) > 24:
+        raise TranslatorUnsure("bloomfilter.py: too many literal candidates (%d large, %d small)" % (len(big), len(small)))
+    mm = B.murmur3
+    seeds = [0, 1, 0xDEADBEEF, M32, 0x12345678]
+    base = {"c1": 1, "c2": 1, "r1": 1, "r2": 1, "m": 1, "n": 0}
+
+    def solve(keys, pools, probes, fixed):
+        want = [mm(d, seed=s) for d, s in probes]
+        sols = []
+        for combo in itertools.product(*pools):
+            P = dict(base, **fixed, **dict(zip(keys, combo)))
+            if all(_ref_murmur3(d, s, P) == w for (d, s), w in zip(probes, want)):
+                sols.append(dict(zip(keys, combo)))
+                if len(sols) > 1:
+                    break
+        if len(sols) != 1:
+            raise TranslatorUnsure("bloomfilter.py: %s solutions for the murmur3 constants %s (need exactly 1)" % ("no" if not sols else "several", "/".join(keys)))
+        return dict(fixed, **sols[0])
+    P = solve(["f1", "f2", "s1", "s2", "s3"], [big, big, small, small, small], [(b"", s) for s in seeds], {})
+    P = solve(["c1", "c2", "r1"], [big, big, small], [(bytes([b]), s) for b in (1, 0x80, 0xFF) for s in seeds[:3]], P)
+    P = solve(["r2", "m", "n"], [small, small, big], [(d, s) for d in (b"\x01\x02\x03\x84", b"\xff\xff\xff\xff") for s in seeds[:3]], P)
+    for n in list(range(0, 14)) + [31, 32, 33, 64, 100]:
+        for s in (0, 7, M32, 2 ** 32 + 5, -3):
+            d = bytes((37 * i + n) % 256 for i in range(n))
+            if mm(d, seed=s) != _ref_murmur3(d, s, P):
+                raise TranslatorUnsure("bloomfilter.py: murmur3 is not the reference algorithm with the constants found")
+    return P
+
+
+def _bloom_constants(B, tree, P):
+    cls = next((n for n in ast.walk(tree) if isinstance(n, ast.ClassDef) and n.name == "BloomFilter"), None)
+    lits = _int_literals(cls if cls is not None else tree)
+    mask = getattr(B.BloomFilter, "MASK_ARRAY", None)
+    if not (isinstance(mask, list) and len(mask) == 8 and all(_is_int(v) and 0 <= v <= 255 for v in mask)):
+        raise TranslatorUnsure("bloomfilter.py: MASK_ARRAY is not a list of 8 byte values")
+    # size limit: the literal v for which BloomFilter(v) is accepted and BloomFilter(v+1) is refused
+    limits = []
+    for v in sorted({v for v in lits if 1 <= v <= 10 ** 7}):
+        try:
+            B.BloomFilter(v, 1, 0)
+        except Exception:  # noqa: BLE001
+            continue
+        try:
+            B.BloomFilter(v + 1, 1, 0)
+        except ValueError:
+            limits.append(v)
+        except Exception:  # noqa: BLE001
+            pass
+    if len(limits) != 1:
+        raise TranslatorUnsure("bloomfilter.py: %d candidates for the filter size limit" % len(limits))
+    # seed multiplier: the large literal with which the reference BIP37 filter reproduces add_item
+    items = [b"", b"\x01", bytes(range(20)), bytes(range(36))]
+    muls = []
+    for v in sorted({v for v in lits if 2 ** 16 <= v <= M32}):
+        good = True
+        for size, nh, tw in ((3, 5, 0), (16, 7, 2147483649), (64, 11, 2 ** 32 + 5)):
+            f = B.BloomFilter(size, nh, tw)
+            ref = bytearray(size)
+            for it in items:
+                f.add_item(it)
+                for k in range(nh):
+                    i = _ref_murmur3(it, (k * v + tw) & M32, P) % (8 * size)
+                    ref[i >> 3] |= mask[i & 7]
+            if bytes(f.filter_bytes) != bytes(ref):
+                good = False
+                break
+        if good:
+            muls.append(v)
+    if len(muls) != 1:
+        raise TranslatorUnsure("bloomfilter.py: %d candidates for the hash-seed multiplier" % len(muls))
+    return muls[0], limits[0], mask
 
 
 def generate():
-    import pycoin.contrib.ripemd160 as R
     import pycoin.bloomfilter as B
 
-    out = ["namespace Pycoin.Gen.HashTables\n"]
-    out.append("/-! pycoin/contrib/ripemd160.py -/")
-    for name in ("ML", "MR", "RL", "RR", "KL", "KR"):
-        out.append("def %s : List Int := %s" % (name, _int_list(getattr(R, name, []))))
-    rtree = ast.parse(inspect.getsource(R))
-    init = []
-    f = _func(rtree, "ripemd160")
-    if f is not None:
-        for st in f.body:
-            if isinstance(st, ast.Assign) and any(getattr(t, "id", None) == "state" for t in st.targets) and isinstance(st.value, ast.Tuple):
-                init = _ints(st.value)
-                break
-    out.append("/-- `state = (...)` at the top of `ripemd160()` -/")
-    out.append("def initState : List Int := %s" % _int_list(init))
-
-    out.append("\n/-! pycoin/bloomfilter.py:murmur3 — integer literals by role, in source order -/")
+    (ML, MR, RL, RR, KL, KR), init = _ripemd_tables()
     btree = ast.parse(inspect.getsource(B))
-    m = _func(btree, "murmur3")
-    lits = []
-    if m is not None:
-        for st in m.body:
-            lits += _ints(st)
-    shape_ok = len(lits) == len(MURMUR_ROLES)
-    for i, role in enumerate(MURMUR_ROLES):
-        if role is not None:
-            out.append("def mm_%s : Int := %s" % (role, _int(lits[i]) if i < len(lits) else "(-1)"))
-    out.append("/-- all literals, for reference; `murmurShapeOk` = their number is the one the role list expects -/")
-    out.append("def murmurLits : List Int := %s" % _int_list(lits))
-    out.append("def murmurShapeOk : Bool := %s" % ("true" if shape_ok else "false"))
+    P = _murmur_constants(B, _int_literals(btree))
+    seed_mul, size_max, mask = _bloom_constants(B, btree, P)
 
+    out = ["namespace Pycoin.Gen.HashTables\n"]
+    out.append("/-! pycoin/contrib/ripemd160.py — located by shape, validated by reproducing ripemd160() on a probe set -/")
+    for name, t in (("ML", ML), ("MR", MR), ("RL", RL), ("RR", RR), ("KL", KL), ("KR", KR)):
+        out.append("def %s : List Int := %s" % (name, _lean_list(t)))
+    out.append("/-- the initial chaining value -/")
+    out.append("def initState : List Int := %s" % _lean_list(init))
+    out.append("\n/-! pycoin/bloomfilter.py:murmur3 — the arithmetic constants, found among the module's literals as the unique")
+    out.append("assignment with which the reference algorithm reproduces murmur3() on a probe set -/")
+    for lean, key in (("mmC1", "c1"), ("mmC2", "c2"), ("mmR1", "r1"), ("mmR2", "r2"), ("mmM", "m"), ("mmN", "n"),
+                      ("mmF1", "f1"), ("mmF2", "f2"), ("mmS1", "s1"), ("mmS2", "s2"), ("mmS3", "s3")):
+        out.append("def %s : Int := %d" % (lean, P[key]))
     out.append("\n/-! pycoin/bloomfilter.py:BloomFilter -/")
-    seed_mul, size_max = -1, -1
-    cls = next((n for n in ast.walk(btree) if isinstance(n, ast.ClassDef) and n.name == "BloomFilter"), None)
-    if cls is not None:
-        fa = _func(cls, "add_item")
-        if fa is not None:
-            v = _ints(fa)
-            if len(v) == 1:
-                seed_mul = v[0]
-        fi = _func(cls, "__init__")
-        if fi is not None:
-            v = _ints(fi)
-            if len(v) == 2:      # `size_in_bytes > 36000`, `8 * size_in_bytes`
-                size_max = v[0]
-    out.append("def bloomSeedMul : Int := %s" % _int(seed_mul))
-    out.append("def bloomMaxSize : Int := %s" % _int(size_max))
-    out.append("def bloomMaskArray : List Int := %s" % _int_list(getattr(B.BloomFilter, "MASK_ARRAY", [])))
+    out.append("def bloomSeedMul : Int := %d" % seed_mul)
+    out.append("def bloomMaxSize : Int := %d" % size_max)
+    out.append("def bloomMaskArray : List Int := %s" % _lean_list(mask))
     out.append("\nend Pycoin.Gen.HashTables\n")
     return {"HashTables": "\n".join(out)}
